@@ -248,3 +248,25 @@ fn hkdf_expand_l2() { hkdf_expand_case::<2>() }
 #[kani::proof]
 #[kani::unwind(26)]
 fn hkdf_expand_l0() { hkdf_expand_case::<0>() }
+// RFC 5869 2.3: L <= 255 * HashLen.  Concrete key material (the limit does not depend on it), real block counter: 255 blocks are
+// produced, the 256th is refused loudly (`checked_add` on the u8 counter), also when it would be a partial block.
+// @harness props=C10,C20 kind=bounded bound=L=511,os=2,concrete_inputs tier=quick expect=refuse timeout=900
+#[kani::proof]
+#[kani::unwind(258)]
+fn hkdf_expand_refuses_block_256() {
+    let prk = [1u8, 2];
+    let info = [3u8, 4, 5];
+    let mut okm = [0u8; 511];
+    hkdf_expand(Tiny::new(), &prk, &info, &mut okm);
+    kani::cover!(true);
+}
+// @harness props=C10 kind=bounded bound=L=510,os=2,concrete_inputs tier=thorough timeout=1200
+#[kani::proof]
+#[kani::unwind(258)]
+fn hkdf_expand_produces_255_blocks() {
+    let prk = [1u8, 2];
+    let info = [3u8, 4, 5];
+    let mut okm = [0u8; 510];
+    hkdf_expand(Tiny::new(), &prk, &info, &mut okm);
+    kani::cover!(true);
+}
